@@ -63,7 +63,8 @@ REQUIRED_PROBES = {
     "quick": ["native_names_swept", "module_symbols_swept", "flag_attacks",
               "crawl_functions_invoked", "interleaved_nonsecure_effects",
               "secure_allowed_module_read", "flag_probe_read",
-              "nonsecure_created_first", "env_shared_with_nonsecure"],
+              "nonsecure_created_first", "env_shared_with_nonsecure",
+              "detached_scope_calls"],
 }
 REQUIRED_PROBES["thorough"] = REQUIRED_PROBES["quick"]
 
@@ -92,7 +93,7 @@ SHAPES = [
 OS_NATIVES = ["execute", "file_input", "file_copy", "file_delete",
               "file_exists", "file_info", "file_move", "file_output",
               "list_dir", "make_dir", "run", "read_file"]
-ALIAS_MODES = ["none", "fresh", "existing", "run"]
+ALIAS_MODES = ["none", "fresh", "existing", "run", "predef"]
 FLAG = "checkerlang_secure_mode"
 
 _DISC = {}
@@ -196,6 +197,54 @@ def flag_attacks():
     return out
 
 
+def detached_attacks():
+    """code whose scope chain no longer reaches the interpreter's base
+    environment when it runs: closures and functions created inside a
+    caller-supplied environment and invoked after that environment has
+    been detached again.  Each attack: (setup in session, body run in the
+    caller environment, later calls from the session)"""
+    body_fn = ("fn(p) do bn_('file_delete'); bn_('file_exists', 'fx_'); "
+               "bn_('execute', 'ex_'); bn_('file_output', 'fo_'); "
+               "[fx_(p), ex_(" + PROG + ", []), file_delete(p)]; end")
+    A = []
+    A.append(("def clo_ = NULL",
+              "def bn_ = bind_native; clo_ = " + body_fn,
+              ["clo_(" + P1 + ")"]))
+    A.append(("def box_ = [NULL]",
+              "def bn_ = bind_native; box_[0] = " + body_fn,
+              ["box_[0](" + P1 + ")", "def g_ = box_[0]; g_(" + PD + ")"]))
+    A.append(("def obj_ = <*f = NULL*>",
+              "def bn_ = bind_native; obj_->f = " + body_fn,
+              ["def h_ = obj_->f; h_(" + P1 + ")"]))
+    A.append(("def clo_ = NULL",
+              "def bn_ = bind_native; def ev_ = eval; clo_ = fn(p) "
+              "ev_('do bn_(\\'file_delete\\'); file_delete(p); end')",
+              ["clo_(" + P1 + ")"]))
+    A.append(("def clo_ = NULL",
+              "def bn_ = bind_native; def mk_() do bn_('make_dir'); "
+              "bn_('list_dir'); [make_dir(" + PNEW + "), list_dir(" + PD +
+              ")]; end; clo_ = mk_",
+              ["clo_()"]))
+    A.append(("def clo_ = NULL",
+              "def " + FLAG + " = FALSE; def bn_ = bind_native; clo_ = "
+              + body_fn,
+              ["clo_(" + P1 + ")"]))
+    return A
+
+
+def detached_ops(atk, envname="DE"):
+    setup, body, calls = atk
+    ops = [{"inst": "S", "src": setup, "tag": "detached-setup"},
+           {"inst": "S", "src": body, "tag": "detached-body",
+            "env": envname}]
+    for c in calls:
+        ops.append({"inst": "S", "src": c, "tag": "detached-call"})
+        # and once more from inside the caller environment itself
+        ops.append({"inst": "S", "src": c, "tag": "detached-call",
+                    "env": envname})
+    return ops
+
+
 def invoke_ops(F, inst="S"):
     return [{"inst": inst, "src": tpl.replace("{F}", F), "tag": tag}
             for tag, tpl in SHAPES]
@@ -209,7 +258,11 @@ def native_ops(name, mode, base_names):
         target = name
     else:
         alias = {"fresh": "al_" + name, "existing": "length",
-                 "run": "run"}[mode]
+                 "run": "run", "predef": "pd_" + name}[mode]
+        if mode == "predef":
+            # the native's own name is already defined in the scope
+            ops.append({"inst": "S", "src": f"def {name} = NULL",
+                        "tag": "predef"})
         ops.append({"inst": "S",
                     "src": f"bind_native('{name}', '{alias}')",
                     "tag": "bind-alias"})
@@ -262,6 +315,7 @@ def sweep_cases():
             cases.append(("flag", legacy, "top", ch))
             cases.append(("flag", legacy, "module", ch))
         cases.append(("crawl", legacy, None, None))
+        cases.append(("detached", legacy, None, None))
     return cases
 
 
@@ -317,6 +371,10 @@ def build_sweep(spec):
             ops += os_native_ops(("", "fe_"))[:60]
             ops += flag_probe_ops(len([o for o in ops
                                        if o["tag"] == "flagprobe"]))
+    elif kind == "detached":
+        for i, atk in enumerate(detached_attacks()):
+            ops += detached_ops(atk, f"DE{i}")
+        ops += flag_probe_ops(0)
     elif kind == "crawl":
         ops.append({"inst": "S", "src": "require IO; require OS; require "
                     "Sys; require List; require String", "tag": "req"})
@@ -430,6 +488,9 @@ def gen_session(rng, tier):
             new += rng.sample(os_native_ops(("", "fe_")), 4)
             new += flag_probe_ops(nprobe % 12)
             nprobe += 1
+        elif r < 0.84:
+            new = detached_ops(rng.choice(detached_attacks()),
+                               "DE" + str(rng.randrange(3)))
         elif r < 0.88:
             new = [{"inst": "S", "src": rng.choice([
                 "require umod; umod->tryit(" + P1 + ")",
@@ -466,7 +527,9 @@ def gen_session(rng, tier):
                 o["faults"] = faults
             if fsteps:
                 o["steps"] = fsteps
-            if senv and o.get("kind") != "crawl":
+            if senv and o.get("kind") != "crawl" and "env" not in o \
+                    and o.get("tag") != "flagprobe" \
+                    and not o.get("tag", "").startswith("detached"):
                 o["env"] = senv
             ops.append(o)
     ops += flag_probe_ops(nprobe % 12)
@@ -590,6 +653,9 @@ def run_case(case, root):
                     "native_names_swept", 0) + 1
             if tag == "flag-attack":
                 probes["flag_attacks"] = probes.get("flag_attacks", 0) + 1
+            if tag == "detached-call" and out["kind"] != "syn":
+                probes["detached_scope_calls"] = probes.get(
+                    "detached_scope_calls", 0) + 1
             if tag in SHAPE_TAGS:
                 nshape += 1
                 res["extra_fps"].append(fingerprint(
